@@ -66,8 +66,11 @@ MUTATIONS = {
     "x08-clock-starts-after-min": dict(
         # the timeout is counted from the end of the `min` phase instead of from the call
         file="utils.py",
-        old="            start = monotonic()\n            if min > 0:\n                input.extend(os.read(_tty_fd, min))\n",
-        new="            if min > 0:\n                input.extend(os.read(_tty_fd, min))\n            start = monotonic()\n",
+        old="            start = monotonic()\n            if min > 0:\n",
+        new="            if min > 0:\n",
+        more=[dict(file="utils.py",
+                   old="            duration = monotonic() - start\n            while (timeout < 0",
+                   new="            start = monotonic()\n            duration = monotonic() - start\n            while (timeout < 0")],
     ),
     "x08-deadline-inclusive": dict(
         # `<=`: one more round at the deadline (timeout=0 now polls, a timed-out call reads one more byte)
@@ -188,7 +191,9 @@ def apply(mid: str, m: dict) -> Path | None:
             shutil.rmtree(root, ignore_errors=True)
             raise SystemExit(f"{mid}: pattern occurs {text.count(e['old'])} times in {e['file']}")
         f.write_text(text.replace(e["old"], e["new"]))
-    subprocess.run([sys.executable, "-m", "compileall", "-q", str(root / "src" / "term_image")], check=True)
+    if subprocess.run([sys.executable, "-m", "compileall", "-q", str(root / "src" / "term_image")]).returncode:
+        shutil.rmtree(root, ignore_errors=True)
+        raise SystemExit(f"{mid}: the mutant does not compile")
     return root
 
 
